@@ -66,7 +66,7 @@ def run_c06(tier):
     mp = os.path.join(vlib.subdir('scripts'), 'tmath.ndjson')
     with open(mp, 'w') as f:
         for k, c in enumerate(mcases):
-            f.write(json.dumps({'id': 'tm-%d' % k, 'n': max(c['n'], max(c['ind'])), 'ind': c['ind'], 'seed': seed * 1000003 + k}) + '\n')
+            f.write(json.dumps({'id': 'tm-%d' % k, 'n': max(c['n'], max(c['ind'])), 'ind': c['ind'], 'seed': vlib.jseed(seed, k)}) + '\n')
     mo = os.path.join(vlib.subdir('results'), 'tmath.ndjson')
     vlib.run([vh, 'thresh-math', '--in', mp, '--out', mo], check=True)
     nm = 0
@@ -76,7 +76,7 @@ def run_c06(tier):
         for v in r['violations']:
             if v['property'] == 'C06':
                 ck.violation('C06:%s' % v['predicate'], '%s: %s' % (v['predicate'], v['detail']),
-                             {'family': 'thresh-math', 'case': {'n': max(c['n'], max(c['ind'])), 'ind': c['ind'], 'seed': seed * 1000003 + nm - 1, 'id': r['id']}})
+                             {'family': 'thresh-math', 'case': {'n': max(c['n'], max(c['ind'])), 'ind': c['ind'], 'seed': vlib.jseed(seed, nm - 1), 'id': r['id']}})
         ck.case('tm:' + vlib.digest(c['ind']), len(c['ind']) >= 2)
     if nm != len(mcases):
         raise vlib.Undecided('thresh-math returned %d of %d' % (nm, len(mcases)))
@@ -87,7 +87,7 @@ def run_c06(tier):
     with open(sp, 'w') as f:
         for k, c in enumerate(scases):
             c['id'] = 'ts-%d' % k
-            c['seed'] = seed * 1000003 + k
+            c['seed'] = vlib.jseed(seed, k)
             f.write(json.dumps(c) + '\n')
     so = os.path.join(vlib.subdir('results'), 'tseq.ndjson')
     vlib.run([vh, 'thresh-seq', '--in', sp, '--out', so], check=True)
